@@ -1,5 +1,5 @@
 // append-to: src/line.rs
-// harness: k_line_trailers props=C10,C09 fns=Line::trailers,Line::is_blank kind=bounded tier=quick timeout=600 obligation=Line::trailers/E1+Line::trim/E1+Line::is_blank/E1 bound="width <= 3, cells from {default blank, 'a', blank with a non-default pen}"
+// harness: k_line_trailers props=C10,C09 fns=Line::trailers,Line::is_blank kind=bounded tier=quick timeout=600 obligation=Line::trailers/E1+Line::trim/E1+Line::is_blank/E1 bound="width <= 3, cells from {default blank, 'a', blank with a non-default pen, U+00A0}"
 // harness: k_line_expand props=C10,C02 fns=Line::expand kind=bounded tier=quick timeout=600 obligation=Line::expand/E1 bound="width <= 2 expanded to <= 3, symbolic pen flag"
 // harness: k_line_contract_1 props=C10 fns=Line::trailers kind=bounded tier=thorough timeout=900 obligation="Line::contract(no cell lost or invented; only trailing default cells of an unwrapped row dropped)" bound="row width 1..3 contracted to 1"
 // harness: k_line_contract_2 props=C10 fns=Line::trailers kind=bounded tier=thorough timeout=900 obligation=Line::contract bound="row width 1..3 contracted to 2"
@@ -14,18 +14,19 @@ mod verif_kani_line {
         p
     }
 
-    /// 0: default blank, 1: 'a', 2: blank carrying a non-default pen (not a default cell)
+    /// 0: default blank, 1: 'a', 2: blank carrying a non-default pen (not a default cell),
+    /// 3: U+00A0 in the default pen (a printable character, not padding)
     fn cell_of(kind: u8) -> Cell {
-        if kind == 0 { Cell::blank(Pen::default()) } else if kind == 1 { Cell::new('a', Pen::default()) } else { Cell::blank(italic()) }
+        if kind == 0 { Cell::blank(Pen::default()) } else if kind == 1 { Cell::new('a', Pen::default()) } else if kind == 2 { Cell::blank(italic()) } else { Cell::new('\u{a0}', Pen::default()) }
     }
 
     fn kind_of(c: &Cell) -> u8 {
-        if c.char() == 'a' { 1 } else if c.pen().is_default() { 0 } else { 2 }
+        if c.char() == 'a' { 1 } else if c.char() == '\u{a0}' { 3 } else if c.pen().is_default() { 0 } else { 2 }
     }
 
     fn any_kinds() -> [u8; 3] {
         let k: [u8; 3] = kani::any();
-        kani::assume(k[0] < 3 && k[1] < 3 && k[2] < 3);
+        kani::assume(k[0] < 4 && k[1] < 4 && k[2] < 4);
         k
     }
 
